@@ -6,16 +6,18 @@ CONSTANT Modes = {FALSE, TRUE}
 CONSTANT Kinds = {"put", "push", "del"}
 SPECIFICATION Spec
 VIEW view
-INVARIANT M_NoLostAck
-INVARIANT M_OwnSequence
-INVARIANT M_OneChildPerParent
-INVARIANT M_LosersLeaveNoTrace
-INVARIANT M_FeedAnnouncesFinal
+INVARIANT X_NoLostAck
+INVARIANT X_OwnSequence
+INVARIANT X_OneChildPerParent
+INVARIANT LosersLeaveNoTrace
+INVARIANT X_RefusalsAreConflicts
+INVARIANT X_FeedAnnouncesFinal
+INVARIANT X_FeedIsFinalUnlessBackwards
+INVARIANT DevSane
 INVARIANT TypeOK
-INVARIANT M_SeqSane
+INVARIANT SeqSane
 INVARIANT NotYetWritten
 INVARIANT CurIsWinner
-INVARIANT M_Accounted
-INVARIANT M_RefusalsAreConflicts
+INVARIANT AccountedModuloDrop
 INVARIANT DevExport
 CHECK_DEADLOCK FALSE
